@@ -422,8 +422,126 @@ func ruleStatusReachesCache(c *Ctx) {
 
 func init() {
 	register("C19", "DR auto-sync only declares 'sync' when every region is in sync", func(c *Ctx) {
-		c.Group("C19/persist-before-serve", "a new status is offered to members and saved (same value) before it is served; its state id comes from a successful AllocID; the served status is otherwise only loaded or given progress numbers; accessed under the manager lock", func() { rulePersistBeforeServe(c) })
+		c.Group("C19/persist-before-serve", "a new status is offered to members and saved (same value) before it is served; its state id comes from a successful AllocID; the served status is otherwise only loaded or given progress numbers; accessed under the manager lock", func() { rulePersistBeforeServe(c); ruleTransitionIsOneCriticalSection(c) })
 		c.Group("C19/transition-guards", "tickDR: →async, async→sync_recover and sync_recover→sync are called only under their stated conditions; UpdateConfig rolls its config back when the switch fails", func() { ruleTransitionGuards(c); ruleFailedStoreCount(c) })
 		c.Group("C19/recovery", "entering sync_recover resets the cursor; the cursor advances only past contiguous regions reporting integrity under the current state id; progress 1.0 only after the whole key space", func() { ruleRecoveryAtoms(c); ruleStatusReachesCache(c) })
 	})
+}
+
+// ruleTransitionIsOneCriticalSection: a state transition draws its state id,
+// offers the status file to the members, saves it and publishes it under one
+// hold of the manager lock. If only the publication is locked, a slower
+// transition can be published after a newer one: the served state id goes
+// backwards, the served state differs from the saved one, and sync can follow
+// async without a recovery in between.
+func ruleTransitionIsOneCriticalSection(c *Ctx) {
+	P := c.P
+	rule := c.Prop + "/persist-before-serve"
+	dr := P.Field(rep, "ModeManager", "drAutoSync")
+	lock := P.Field(rep, "ModeManager", "RWMutex")
+	persist := F(P.Method(rep, "ModeManager", "drPersistStatus"))
+	save := F(P.Method("server/core", "Storage", "SaveReplicationStatus"))
+	allocID := P.IMethod("server/schedule/opt", "Cluster", "AllocID")
+	n := 0
+	for _, fn := range P.Funcs {
+		if P.isScaffold(fn) || fnPkgPath(fn) != modPath+"/"+rep || fn.Parent() != nil {
+			continue
+		}
+		// a transition: allocates an id and publishes a whole status
+		publishes := false
+		var pubs []ssa.Instruction
+		for _, st := range storesToField(fn, dr) {
+			if !isFreshBase(st.Addr) {
+				publishes = true
+				pubs = append(pubs, st)
+			}
+		}
+		ids := callsIn(fn, false, allocID)
+		if !publishes || len(ids) == 0 {
+			continue
+		}
+		n++
+		steps := pubs
+		for _, ci := range ids {
+			steps = append(steps, ci.(ssa.Instruction))
+		}
+		for _, ci := range callsIn(fn, false, persist, save) {
+			steps = append(steps, ci.(ssa.Instruction))
+		}
+		ok, why := true, ""
+		for _, st := range steps {
+			held, _ := heldAt(P, st, lock, true)
+			if !held {
+				held, why = callersHold(P, fn, lock, true, 2, map[*ssa.Function]bool{})
+			}
+			if !held {
+				ok = false
+				if why == "" {
+					why = "not under the manager lock at " + P.instrPos(st)
+				}
+				break
+			}
+		}
+		// one hold: the lock is not given up between two steps
+		if ok {
+			for _, b := range fn.Blocks {
+				for _, ins := range b.Instrs {
+					f, op, deferred := lockOp(ins)
+					if f != lock || deferred || op != "Unlock" {
+						continue
+					}
+					before, after := false, false
+					for _, st := range steps {
+						before = before || instrReaches(st, ins)
+						after = after || instrReaches(ins, st)
+					}
+					if before && after {
+						ok, why = false, "the lock is released at "+P.instrPos(ins)+" between two steps of the transition"
+					}
+				}
+			}
+		}
+		c.Check(ok, rule, "transition steps of "+fnName(fn), "the state id is drawn, the status offered to the members, saved and published under one hold of the manager's write lock", P.pos(fn.Pos()), why)
+	}
+	if n < 3 {
+		c.Undec(rule, "state transitions (→async, →sync_recover, →sync)", "3", "", fmt.Sprint(n))
+	}
+}
+
+// instrReaches: can control flow from instruction a to instruction b inside
+// their function (a strictly before b on some path)?
+func instrReaches(a, b ssa.Instruction) bool {
+	if a.Parent() != b.Parent() {
+		return false
+	}
+	ba, bb := a.Block(), b.Block()
+	if ba == bb {
+		ia, ib := -1, -1
+		for i, x := range ba.Instrs {
+			if x == a {
+				ia = i
+			}
+			if x == b {
+				ib = i
+			}
+		}
+		if ia < ib {
+			return true
+		}
+	}
+	seen := map[*ssa.BasicBlock]bool{}
+	work := append([]*ssa.BasicBlock{}, ba.Succs...)
+	for len(work) > 0 {
+		x := work[len(work)-1]
+		work = work[:len(work)-1]
+		if seen[x] {
+			continue
+		}
+		seen[x] = true
+		if x == bb {
+			return true
+		}
+		work = append(work, x.Succs...)
+	}
+	return false
 }
